@@ -7,8 +7,8 @@ From QCE Require Import Base.Prelude Core.Model Core.Run.
 From Gen Require Import Ident Classes.
 Open Scope Z_scope.
 
-Definition case := Core.Run.case.
-Definition agree (c : case) : bool := agree_core c.
+Definition ccase := Core.Run.case.
+Definition agree_c (c : ccase) : bool := agree_core c.
 
 (* the leaves a program adds: sub-circuit bodies expanded in place, once (NOT multiplied by the repetition count) *)
 Fixpoint cmd_leaves (c : cmd) : list leaf :=
@@ -34,7 +34,7 @@ Definition multiset_eqb (l1 l2 : list key) : bool :=
   Nat.eqb (length l1) (length l2) && forallb (fun k => Nat.eqb (count_key k l1) (count_key k l2)) l1.
 
 (* (a) the listed operations are exactly the added ones, with class, channels, tag and duration unchanged *)
-Definition complete_ok (c : case) (ob : obs) : bool :=
+Definition complete_ok (c : ccase) (ob : obs) : bool :=
   multiset_eqb (map (leaf_key (c_env c)) (prog_leaves (c_prog c))) (map obs_key (o_ops ob)).
 
 (* (b) no entry is listed before (or as) the entry its reported relation refers to *)
@@ -58,7 +58,7 @@ Definition same_sequence (a b : obs) : bool := list_eqb seq_key_eqb (map seq_key
    operation, is listed exactly once and is that operation; a sub-circuit's handle is not itself listed *)
 Fixpoint zindexed {A} (i : Z) (l : list A) : list (Z * A) :=
   match l with [] => [] | x :: t => (i, x) :: zindexed (i + 1) t end.
-Definition returned_ok (c : case) (ob : obs) : bool :=
+Definition returned_ok (c : ccase) (ob : obs) : bool :=
   forallb (fun kc : Z * cmd =>
              let '(k, cm) := kc in
              let hits := filter (fun o => oe_cmd o =? k) (o_ops ob) in
@@ -70,7 +70,7 @@ Definition returned_ok (c : case) (ob : obs) : bool :=
           (zindexed 0 (c_prog c))
   && forallb (fun o => (oe_cmd o <? Z.of_nat (length (c_prog c)))) (o_ops ob).
 
-Definition spec_ok (c : case) : bool :=
+Definition spec_c (c : ccase) : bool :=
   match c_plain c with
   | None => false                                   (* nothing observed, nothing checked *)
   | Some ob =>
@@ -80,4 +80,21 @@ Definition spec_ok (c : case) : bool :=
          | None => true
          | Some ob2 => complete_ok c ob2 && causal_ok ob2 && same_sequence ob ob2
          end
+  end.
+
+(* A chain of n operations on one qubit, each implicitly FOLLOWED_BY the previous one (relation depth n-1): only the NUMBER of
+   listed operations is observed (their times recurse deeper than the interpreter allows).  Documented depth limit: the
+   operations of depth < 4999 are listed, the rest dropped with a warning. *)
+Inductive case := KCore (c : ccase) | KDeep (n : Z) (listed : Z).
+Definition agree (c : case) : bool :=
+  match c with
+  | KCore x => agree_c x
+  (* the model's listing of a chain of n nodes has min n max_layers entries: theorems C02_chain_truncated / C02_bfs_complete
+     (evaluating bfs on a 5000-deep unary-indexed chain inside the VM is infeasible, the proved closed form is used) *)
+  | KDeep n listed => listed =? Z.min n (Z.of_nat max_layers)
+  end.
+Definition spec_ok (c : case) : bool :=
+  match c with
+  | KCore x => spec_c x
+  | KDeep n listed => listed =? Z.min n 4999
   end.
